@@ -26,7 +26,16 @@ impl<'a> EnumPruner<'a> {
         };
 
         let Some(variant_id) = index.variants.iter().position(|v| v == val_str) else {
-            return None;
+            // The value is not among this segment's variants: no row equals it, so `=` rules
+            // every zone out - and every row differs from it, so `!=` keeps every zone.
+            return Some(match op {
+                CompareOp::Neq => index
+                    .zone_bitmaps
+                    .keys()
+                    .map(|zone_id| CandidateZone::new(*zone_id, segment_id.to_string()))
+                    .collect(),
+                _ => Vec::new(),
+            });
         };
 
         let pruner = EnumZonePruner {
